@@ -199,9 +199,8 @@ func (u *Unit) frameObligations(fr *frame, final *State) {
 		return
 	}
 	if len(u.havocAlls) > 0 {
-		tmp := &State{G: final.G}
-		u.oblige(tmp, "frame", "body havocs the whole heap ("+strings.Join(u.havocAlls, "; ")+") but the contract does not say 'modifies *'", u.fn.Pos(), TFalse, "havoc")
-		return
+		tmp := &State{G: TTrue}
+		u.oblige(tmp, "frame", "paths that havoc the whole heap ("+strings.Join(u.havocAlls, "; ")+") are unreachable (the contract does not say 'modifies *')", u.fn.Pos(), Not(Or(u.havocGuards...)), "havoc")
 	}
 	allowed := map[string][]modItem{}
 	env := u.specEnv(fr, u.pre)
